@@ -46,6 +46,10 @@ pub enum When {
 
 #[derive(Clone, Debug, Serialize, Deserialize, PartialEq)]
 pub struct Scenario {
+    /// store-level variant (S-sim): producers append to one thread under the baton scheduler while
+    /// subscribers perform the join protocol (subscribe, then replay) at scheduler-chosen moments
+    #[serde(default)]
+    pub store: Option<StoreSc>,
     pub kind: Kind,
     pub with_provider: bool,
     pub script: Vec<Resp>,
@@ -58,7 +62,148 @@ pub struct Scenario {
     pub workers: u8,
 }
 
+#[derive(Clone, Debug, Serialize, Deserialize, PartialEq)]
+pub struct StoreSc {
+    pub sim_seed: u64,
+    pub setup_messages: u32,
+    pub producers: Vec<Vec<crate::world::Op>>,
+    /// per subscriber: number of producer operations to wait for before joining (approximate
+    /// start offset; the exact interleaving is the scheduler's)
+    pub subscribers: Vec<u32>,
+    pub sched: crate::storesim::SchedSpec,
+    pub drop_caches_first: bool,
+}
+
 pub struct C06;
+
+fn generate_store(run_seed: u64) -> StoreSc {
+    use crate::world::Op;
+    let mut rng = Rng::derive(run_seed, "c06-store");
+    let np = rng.range(1, 2) as usize;
+    let mut producers = vec![Vec::new(); np];
+    for _ in 0..rng.range(2, 10) {
+        let a = rng.usize_below(np);
+        let op = match rng.below(6) {
+            0..=3 => Op::AppendMessage { thread: 0, size: if rng.chance(1, 6) { 3 } else { 1 } },
+            4 => Op::FullRun { thread: 0, size: 1, effects: rng.below(2) as u32, cursor_key: None },
+            _ => Op::ManualCheckpoint { thread: 0, sel: crate::world::CutSel::None, stride: None, summary: crate::world::SummarySel::Text },
+        };
+        producers[a].push(op);
+    }
+    let mut srng = Rng::derive(run_seed, "c06-store-sched");
+    StoreSc { sim_seed: crate::prng::mix_label(run_seed, "sim"), setup_messages: rng.below(4) as u32, producers, subscribers: (0..rng.range(1, 3)).map(|_| rng.below(6) as u32).collect(), sched: crate::storesim::SchedSpec::generate(&mut srng, 200), drop_caches_first: false }
+}
+
+fn execute_store(sc: &StoreSc, env: &Env) -> (Outcome, RunStats) {
+    use crate::storesim;
+    use crate::world::{Op, World};
+    let mut stats = RunStats::default();
+    stats.bump("stream_kind:thread_store_level", 1);
+    let dirs = storesim::begin_run(&env.root, sc.sim_seed, 1_000_000);
+    let world = Arc::new(World::new(dirs.clone()));
+    let fail = |o: Outcome, mut st: RunStats| {
+        st.sim_time_ns = storesim::end_run();
+        (o, st)
+    };
+    if let Err(e) = storesim::open_world(&world) {
+        return fail(Outcome::Harness(format!("open: {e}")), stats);
+    }
+    let mut setup = vec![Op::EnsureDefault];
+    for _ in 0..sc.setup_messages {
+        setup.push(Op::AppendMessage { thread: 0, size: 1 });
+    }
+    let rep = storesim::run_phase(&world, &[setup], 0, crate::sched::SimConfig { policy: crate::sched::Policy::Sequential, ..Default::default() }, |_| crate::sched::Verdict::proceed());
+    if let Some(p) = storesim::harness_problem(&rep) {
+        return fail(Outcome::Harness(p), stats);
+    }
+    let tid = match world.reg.lock().unwrap().threads.first().cloned() {
+        Some(t) => t,
+        None => return fail(Outcome::Harness("no default thread".into()), stats),
+    };
+    if sc.drop_caches_first {
+        crate::seam::passthrough(|| {
+            let _ = std::fs::remove_dir_all(dirs.data.join("continuity_streams"));
+        });
+        stats.bump("fault:cache_dir_removed", 1);
+    }
+    // actors
+    let progress = Arc::new(std::sync::atomic::AtomicU64::new(0));
+    type Joined = (Vec<rip_kernel::Event>, tokio::sync::broadcast::Receiver<rip_kernel::Event>);
+    let joined: Arc<Mutex<Vec<Option<Joined>>>> = Arc::new(Mutex::new((0..sc.subscribers.len()).map(|_| None).collect()));
+    let mut sim = crate::sched::Sim::new(sc.sched.config(0));
+    for (i, ops) in sc.producers.iter().enumerate() {
+        let (w, ops, pr) = (world.clone(), ops.clone(), progress.clone());
+        sim.actor(&format!("p{i}"), move || {
+            for (k, op) in ops.iter().enumerate() {
+                let r = w.exec(i, k, op);
+                w.record(r);
+                pr.fetch_add(1, Ordering::SeqCst);
+            }
+        });
+    }
+    for (j, wait_ops) in sc.subscribers.iter().enumerate() {
+        let (w, pr, jn, tid2, wait_ops) = (world.clone(), progress.clone(), joined.clone(), tid.clone(), *wait_ops as u64);
+        sim.actor(&format!("s{j}"), move || {
+            // a named scheduling point per poll lets the scheduler run the producers meanwhile
+            let mut spins = 0;
+            while pr.load(Ordering::SeqCst) < wait_ops && spins < 40 {
+                rip_kernel::verif::yield_point("c06_subscriber_waits");
+                spins += 1;
+            }
+            let store = w.st().store.clone();
+            // the join protocol of the thread stream handler: subscribe first, then history
+            let rx = store.subscribe();
+            let past = store.replay_events(&tid2).unwrap_or_default();
+            jn.lock().unwrap()[j] = Some((past, rx));
+        });
+    }
+    let rep = sim.run(|_| crate::sched::Verdict::proceed());
+    stats.sim_time_ns = storesim::end_run();
+    if let Some(p) = storesim::harness_problem(&rep) {
+        return (Outcome::Harness(p), stats);
+    }
+    stats.bump("context_switches", rep.context_switches);
+    stats.case_hash = rep.trace_hash ^ fnv1a(serde_json::to_string(&sc.producers).unwrap_or_default().as_bytes());
+    stats.nontrivial = rep.context_switches >= 2;
+    let truth = match crate::model::parse_truth_file(&dirs.data.join("events.jsonl")) {
+        Ok(t) => t,
+        Err(e) => return (Outcome::Harness(format!("truth: {}", e.reason)), stats),
+    };
+    let expected: Vec<(u64, String)> = truth.stream("continuity", &tid).iter().map(|f| (f.seq, f.id.clone())).collect();
+    let mut g = joined.lock().unwrap();
+    for (j, slot) in g.iter_mut().enumerate() {
+        let Some((past, rx)) = slot.as_mut() else {
+            continue;
+        };
+        let last = past.last().map(|e| e.seq);
+        let mut got: Vec<(u64, String)> = past.iter().map(|e| (e.seq, e.id.clone())).collect();
+        loop {
+            match rx.try_recv() {
+                Ok(ev) => {
+                    // the handler's live filter
+                    if ev.session_id != tid {
+                        continue;
+                    }
+                    if last.map(|l| ev.seq <= l).unwrap_or(false) {
+                        continue;
+                    }
+                    got.push((ev.seq, ev.id.clone()));
+                }
+                Err(tokio::sync::broadcast::error::TryRecvError::Lagged(_)) => continue,
+                Err(_) => break,
+            }
+        }
+        stats.bump("subscribers:store_level", 1);
+        if got != expected {
+            let gs: Vec<u64> = got.iter().map(|x| x.0).collect();
+            let es: Vec<u64> = expected.iter().map(|x| x.0).collect();
+            let missing: Vec<u64> = es.iter().filter(|s| !gs.contains(s)).copied().collect();
+            let class = if !missing.is_empty() { "subscriber_missed_frame" } else if gs.windows(2).any(|w| w[0] == w[1]) || { let mut s2 = gs.clone(); s2.sort(); s2.windows(2).any(|w| w[0] == w[1]) } { "subscriber_got_frame_twice" } else { "subscriber_frames_out_of_order" };
+            return (Outcome::Violation(viol(class, format!("{class}:thread_store_level"), format!("subscriber #{j} (subscribe, then replay_events of {tid}, then live frames with seq > {last:?}) has seqs {gs:?}; the thread holds {es:?} (missing {missing:?})"))), stats);
+        }
+    }
+    (Outcome::Ok, stats)
+}
 
 fn tool_input(rng: &mut Rng) -> String {
     match rng.below(3) {
@@ -70,6 +215,9 @@ fn tool_input(rng: &mut Rng) -> String {
 
 pub fn generate(run_seed: u64, _tier: Tier) -> Scenario {
     let mut rng = Rng::derive(run_seed, "c06");
+    if Rng::derive(run_seed, "c06-kind").chance(1, 4) {
+        return Scenario { store: Some(generate_store(run_seed)), kind: Kind::Thread { inputs: vec![] }, with_provider: false, script: vec![], plan: Plan::default(), subs: vec![], sub_hold_ms: 0, workers: 0 };
+    }
     let with_provider = rng.chance(2, 3);
     let input = |rng: &mut Rng| if rng.chance(2, 3) { format!("say something {}", rng.below(100)) } else { tool_input(rng) };
     let kind = match rng.below(10) {
@@ -126,7 +274,7 @@ pub fn generate(run_seed: u64, _tier: Tier) -> Scenario {
         subs.push(When::AfterMs(rng.below(20)));
     }
     let random = if rng.chance(2, 3) { Some((rng.next_u64(), 1, rng.range(2, 6), rng.range(1, 12))) } else { None };
-    Scenario { kind, with_provider, script, plan: Plan { rules, random }, subs, sub_hold_ms: rng.below(40), workers }
+    Scenario { store: None, kind, with_provider, script, plan: Plan { rules, random }, subs, sub_hold_ms: rng.below(40), workers }
 }
 
 // ---------------------------------------------------------------------------------------------
@@ -208,6 +356,9 @@ fn viol(class: &str, sig: String, detail: String) -> Violation {
 }
 
 pub fn execute(sc: &Scenario, env: &Env) -> (Outcome, RunStats) {
+    if let Some(st) = &sc.store {
+        return execute_store(st, env);
+    }
     let mut stats = RunStats::default();
     stats.case_hash = fnv1a(serde_json::to_string(sc).unwrap_or_default().as_bytes());
     let _ = esim::panics_take();
@@ -512,6 +663,29 @@ impl Check for C06 {
             return Vec::new();
         };
         let mut out: Vec<Scenario> = Vec::new();
+        if let Some(st) = &sc.store {
+            for a in 0..st.producers.len() {
+                for k in (0..st.producers[a].len()).rev() {
+                    let mut c = sc.clone();
+                    if let Some(s2) = c.store.as_mut() {
+                        s2.producers[a].remove(k);
+                        s2.sched.schedules = None;
+                    }
+                    out.push(c);
+                }
+            }
+            if st.subscribers.len() > 1 {
+                for j in (0..st.subscribers.len()).rev() {
+                    let mut c = sc.clone();
+                    if let Some(s2) = c.store.as_mut() {
+                        s2.subscribers.remove(j);
+                        s2.sched.schedules = None;
+                    }
+                    out.push(c);
+                }
+            }
+            return out.into_iter().map(|s| serde_json::to_value(s).unwrap()).collect();
+        }
         if sc.subs.len() > 1 {
             for i in (0..sc.subs.len()).rev() {
                 let mut c = sc.clone();
@@ -561,7 +735,7 @@ impl Check for C06 {
         3
     }
     fn rule(&self) -> String {
-        "one run = one seeded scenario: a watched stream (a session started by POST /sessions + input, the session of a run started by a thread post, a background task, or a thread receiving 1-3 posts), produced by the stub runtime, a scripted provider answer of 3-14 frames, or a tool envelope; a hold plan (one of: hold the producer at the n-th visit (n in 0..14) of its before-record point or of the point between recording a frame and publishing it and attach a subscriber exactly there; hold a subscriber between its subscribe and its history snapshot for 0-40 ms while the producer runs; none) plus, in 2 of 3 scenarios, random holds of 0-12 ms at every visited point with probability 1/2..1/6; 1-4 subscribers attaching before the start, at the held point, 0-30 ms after the start, or after the end. After the producer finished and all holds were released, each subscriber must have received exactly the (seq,id) list the log holds for that stream, in order (missing / duplicated / reordered frames are distinct violation classes); distinct = hash of the scenario; non-trivial = watched stream has at least 3 frames".into()
+        "1 in 4 runs is a store-level scenario in S-sim: 1-2 producer threads append 2-10 frames (messages, whole runs, checkpoints) to one thread under the baton scheduler (every fs effect, lock operation and the subscribe() entry is a scheduling point, i.e. also between the truth append, each cache append and the broadcast) while 1-3 subscriber threads perform the thread stream's join protocol at scheduler-chosen moments — subscribe(), then replay_events(), then the live frames with seq above the last replayed one (cache loss is outside this property's quantifier and is judged in C03/C04); what each collects must equal the thread in the log. The other runs are engine scenarios: a watched stream (a session started by POST /sessions + input, the session of a run started by a thread post, a background task, or a thread receiving 1-3 posts), produced by the stub runtime, a scripted provider answer of 3-14 frames, or a tool envelope; a hold plan (one of: hold the producer at the n-th visit (n in 0..14) of its before-record point or of the point between recording a frame and publishing it and attach a subscriber exactly there; hold a subscriber between its subscribe and its history snapshot for 0-40 ms while the producer runs; none) plus, in 2 of 3 scenarios, random holds of 0-12 ms at every visited point with probability 1/2..1/6; 1-4 subscribers attaching before the start, at the held point, 0-30 ms after the start, or after the end. After the producer finished and all holds were released, each subscriber must have received exactly the (seq,id) list the log holds for that stream, in order (missing / duplicated / reordered frames are distinct violation classes); distinct = hash of the scenario; non-trivial = watched stream has at least 3 frames".into()
     }
     fn assumptions(&self) -> Vec<String> {
         vec![
